@@ -40,7 +40,7 @@ ASSUMPTIONS = [
     "kind-level sequences: a line of kind K also matches #Other (every non-EOF line does), so it is free text where K is not expected",
 ]
 DECIDING = ["cells_probed", "bisimulation_checks", "kind_sequences", "text_sequences", "G4.evaluated", "acceptance_compared",
-            "parses_on_reused_objects", "threshold_documents", "long_windows_probed"]
+            "parses_on_reused_objects", "threshold_documents", "long_windows_probed", "interleaved_parses"]
 
 
 # ------------------------------------------------------------------ stubs
@@ -466,6 +466,7 @@ def plan(tier, seed):
         specs.append({"family": "thresholds", "part": part, "parts": 8, "tier": tier, "seed": seed, "n": 1})
     for first in ("TagLine", "Comment", "Empty"):
         specs.append({"family": "long_windows", "first": first, "seed": seed, "n": 1})
+    specs += shards("interleaved", 60 if q else 2400, 20 if q else 200, seed)
     specs.append({"family": "corpus", "seed": seed, "n": 1})
     specs.append({"family": "w0", "seed": seed, "n": 1})
     return specs
@@ -545,7 +546,10 @@ def run_shard(spec, M):
     elif fam == "docs":
         for i in range(spec["start"], spec["start"] + spec["n"]):
             R = doccheck.make_doc(spec["seed"], "C02", i)
-            o = observe.parse_observed(R.text)
+            as_file = i % 3 == 0 and observe.file_loadable(R.text)
+            if as_file:
+                M.count("parses_from_files")
+            o = observe.parse_observed(R.text, as_file=as_file, as_scanner=(i % 3 == 1))
             M.case(h64(R.text))
             check_doc_vs_grammar(R, o, M, {"kind": "doc", "text": R.text})
     elif fam == "reused":
@@ -575,6 +579,29 @@ def run_shard(spec, M):
                                              "text": short(text, 300), "real": [o.status, o.err_messages()[:2]], "sim": [sim["accepted"], sim["errors"][:2]]}, case)
                 apply_parse_monitors(o, M, case, {"G4"})
                 cover_transitions(o, M)
+    elif fam == "interleaved":
+        # several Parser objects at work at the same time (own threads, turns taken at token fetches, no matcher passed):
+        # whether a document is accepted is a matter of that document alone
+        from . import c15
+        from ..perturb import POOL as PPOOL
+        hot = [PPOOL[n] for n in ("open_doc", "open_bt", "hdr_fr", "hdr_no_crlf", "open_doc_in_fr", "outline", "badlang")]
+        for i in range(spec["start"], spec["start"] + spec["n"]):
+            r = rng(spec["seed"], ID, "interleaved", i)
+            Rs = [doccheck.make_doc(spec["seed"], "C02i", 3 * i + k, size="small") for k in range(2)]
+            texts = [R.text for R in Rs] + [r.choice(hot)]
+            solo, runs = c15.interleaved(texts, r, n_schedules=2)
+            M.case(h64(["interleaved", texts]))
+            for res in runs:
+                M.count("interleaved_parses", len(res))
+                for k, (R, got) in enumerate(zip(Rs, res)):
+                    acc = grammar_mod.grammar_reading(observe.grammar(), R.kinds)[0]
+                    case = {"kind": "interleaved", "texts": texts}
+                    if got[0] == "crash" or (got[0] == "ok") != acc:
+                        M.violation("C02.acceptance", {"what": "a document whose line kinds are %s sentence of the grammar was %s while other Parser objects were parsing other documents at the same time" % (
+                            "a" if acc else "no", {"ok": "accepted", "crash": "aborted by " + str(got[1:3])}.get(got[0], "rejected")), "errors": short(got[1], 200) if got[0] != "ok" else None}, case)
+                    elif got != solo[k]:
+                        M.violation("C02.nesting", {"what": "result of a parse that ran while other Parser objects were parsing differs from its result alone",
+                                                    "alone": short(solo[k], 200), "interleaved": short(got, 200)}, case)
     elif fam == "thresholds":
         # one dimension of the document has size n around 10, 32, 64, 100, 128, 256, 512, 1000, 1024 (look-ahead windows,
         # tag lines, comments, blank lines, steps, rows, scenarios, rules, ...): still a sentence, still the same derivation
@@ -622,6 +649,15 @@ def replay(case, M):
         check_text_seq(case["idxs"], M)
     elif k == "shard":
         run_shard(case["spec"], M)
+    elif k == "interleaved":
+        from . import c15
+        import random as _random
+        solo, runs = c15.interleaved(case["texts"], _random.Random(0), n_schedules=20)
+        for res in runs:
+            if res != solo:
+                M.violation("C02.nesting", {"what": "result of a parse that ran while other Parser objects were parsing differs from its result alone",
+                                            "alone": short(solo, 200), "interleaved": short(res, 200)}, case)
+                break
     elif k == "threshold":
         R = thresholds.build(case["dim"], case["n"])
         check_doc_vs_grammar(R, observe.parse_observed(R.text), M, case)
